@@ -414,17 +414,19 @@ cgstrf (superlu_options_t *options, SuperMatrix *A,
     /* k is the rank of U
        pivots have been completed for rows < k
        Now fill in the pivots for rows k to m */
-    k = iinfo == 0 ? n : (int)iinfo - 1;
-    if (m > k) {
-        /* if k == m, then all the row permutations are complete and
-           we can short circuit looking through the rest of the vector */
-        for (i = 0; i < m && k < m; ++i) {
-            if (perm_r[i] == SLU_EMPTY) {
-                perm_r[i] = k;
-                ++k;
-            }
-
-        }
+    if ( iinfo != 0 || m > n ) {
+	/* Rows that were never chosen as a pivot take the positions that no
+	   pivot occupies, in increasing order. */
+	int *taken = int32Calloc(m);
+	for (i = 0; i < m; ++i)
+	    if ( perm_r[i] != SLU_EMPTY ) taken[perm_r[i]] = 1;
+	k = 0;
+	for (i = 0; i < m; ++i)
+	    if ( perm_r[i] == SLU_EMPTY ) {
+		while ( taken[k] ) ++k;
+		perm_r[i] = k++;
+	    }
+	SUPERLU_FREE (taken);
     }
     
     countnz(min_mn, xprune, &nnzL, &nnzU, Glu);
